@@ -15,10 +15,16 @@ IMPORTS = ("From Coq Require Import List Arith Bool.\nFrom RV Require Import bas
            "Import ListNotations.\nClose Scope Q_scope.\nOpen Scope nat_scope.")
 TRUSTED = ["networkx (is_directed_acyclic_graph, is_isomorphic) is used by the implementation oracle only, never by the proof",
            "node ids stand for Python object identity; the harness maps objects to ids with a dict keyed by id(obj) "
-           "(objects kept alive for the whole case)"]
+           "(objects kept alive for the whole case)",
+           "tie (T): tools/vlib/py2coq_graph.py (fail-closed ast translator of find_entries_and_exits / find_parents_and_children / "
+           "topological_sort) and coq/base/PyColl.v, the meaning it gives to Python set / defaultdict(list) / deque / list / for / "
+           "while (explicit fuel) / raise; its output is also executed against the real functions (run/RunGenC03.v, sub-id C03_gen)"]
 ASSUMPTIONS = ["operands are Node / Concat instances and non-frozen Models with unique names; no FrozenModel, no dimension "
                "mismatch between already-initialised nodes (nodes are never initialised in the scenarios)",
-               "explicit Model(nodes, edges) scenarios use duplicate-free node lists and edges whose endpoints are listed"]
+               "explicit Model(nodes, edges) scenarios use duplicate-free node lists and edges whose endpoints are listed",
+               "C03_generated_*: Python's set iteration order (ord_n k s, one site per set->sequence conversion) and "
+               "sorted(edges, key=parent.name + child.name) (sorted_by_name) are parameters of the generated code assumed only to "
+               "return a permutation of their argument; an explicit `inputs` list is the entry set, each node once, in any order"]
 
 CAT_BASE = 100      # ids of automatically inserted Concat nodes start here
 FALLBACK = 1000    # fallback naming base used by the model for constructions that raised (nothing to observe)
@@ -502,9 +508,63 @@ def _viol(key, what, c, expected=None, observed=None):
     return {"key": key, "what": what, "scenario": jsonable(c), "expected": jsonable(expected), "observed": jsonable(observed)}
 
 
+def _judge_gen(c):
+    """a `gen` scenario (digraph given directly to utils/graphflow.py) decided on the real functions, no Coq: entries / exits are
+    the nodes without predecessors / successors; topological_sort (inputs None, and = the entry list in a shuffled order) returns
+    a permutation of the nodes with every edge forward iff the graph is acyclic, and raises the cycle RuntimeError otherwise"""
+    import random
+    if c.get("dup"):
+        return None                      # duplicated edges: outside the property (edge SETS)
+    rpy()
+    import networkx as nx
+    from reservoirpy.node import Node
+    from reservoirpy.utils import graphflow as gf
+    _uid[0] += 1
+    tag = "j%d_" % _uid[0]
+    objs = [Node(forward=lambda node, x: x, name=tag + lb) for lb in c["labels"]]
+    ids = {id(o): i for i, o in enumerate(objs)}
+    V = [objs[i] for i in c["V"]]
+    E = [(objs[a], objs[b]) for a, b in c["E"]]
+    ents, exs = gf.find_entries_and_exits(V, E)
+    ents, exs = sorted(ids[id(o)] for o in ents), sorted(ids[id(o)] for o in exs)
+    rents = sorted(v for v in c["V"] if all(b != v for _, b in c["E"]))
+    rexs = sorted(v for v in c["V"] if all(a != v for a, _ in c["E"]))
+    if ents != rents or exs != rexs:
+        return _viol("graphflow:entries-exits", "find_entries_and_exits does not return the nodes without predecessors / successors",
+                     c, [rents, rexs], [ents, exs])
+    g = nx.DiGraph()
+    g.add_nodes_from(c["V"])
+    g.add_edges_from(c["E"])
+    acyclic = nx.is_directed_acyclic_graph(g)
+    ins = list(rents)
+    random.Random(c["seed"]).shuffle(ins)
+    for label, thunk in (("inputs=None", lambda: gf.topological_sort(V, E)),
+                         ("inputs=%r" % (ins,), lambda: gf.topological_sort(V, E, [objs[i] for i in ins]))):
+        try:
+            order = [ids[id(o)] for o in thunk()]
+        except RuntimeError as e:
+            if not _is_cycle_error(e):
+                raise
+            order = None
+        except (KeyError, ValueError, IndexError) as e:
+            return _viol("graphflow:toposort-crash", "topological_sort(%s) raises %r on a duplicate-free graph" % (label, e), c)
+        if order is None:
+            if acyclic:
+                return _viol("graphflow:dag-rejected", "topological_sort(%s) raises the cycle error on an acyclic graph" % label, c)
+            continue
+        if not acyclic:
+            return _viol("graphflow:cycle-accepted", "topological_sort(%s) returns an order for a cyclic graph" % label, c, None, order)
+        if sorted(order) != sorted(c["V"]) or any(order.index(a) >= order.index(b) for a, b in c["E"]):
+            return _viol("graphflow:not-a-topological-order", "topological_sort(%s) does not return a topological order" % label,
+                         c, None, order)
+    return None
+
+
 def _judge(c):
     if c.get("kind") == "share":
         return _judge_share(c)
+    if c.get("kind") == "gen":
+        return _judge_gen(c)
     try:
         W, m, term, obs = run_impl(c)
     except Exception as e:
@@ -721,6 +781,114 @@ def law_cases(rng, count):
     return out
 
 
+def pregen(ctx):
+    """tie (T): re-translate find_entries_and_exits / find_parents_and_children / topological_sort of utils/graphflow.py of the
+    tree under test into coq/gen/Gen_graphflow.v (a rejected translation leaves a stub that does not compile)"""
+    from vlib import py2coq_graph
+    return py2coq_graph.pregen()
+
+
+# ------------------------------------------------------------------------------------------ tie (T), executed
+IMPORTS_GEN = ("From Coq Require Import List Arith Bool.\nFrom RV Require Import base.Num base.PyColl model.Graph run.RunGenC03.\n"
+               "Import ListNotations.\nClose Scope Q_scope.\nOpen Scope nat_scope.")
+
+
+def _nl(l):
+    return "[" + ";".join(str(int(x)) for x in l) + "]"
+
+
+def _el(l):
+    return "[" + ";".join("(%d,%d)" % (a, b) for a, b in l) + "]"
+
+
+def gen_graph_cases(rng, count):
+    """digraphs on 1-6 nodes given to the REAL graphflow functions directly (cyclic ones, self-loops, lonely nodes; a few
+    off-contract ones: duplicated edges, an `inputs` list that is not the entry set), names drawn from LABELS (sort-key ties occur)"""
+    cases = []
+    for i in range(count):
+        n = rng.randint(1, 6)
+        dens = rng.choice([0.15, 0.3, 0.5])
+        E = [(a, b) for a in range(n) for b in range(n) if (a != b or rng.random() < 0.05) and rng.random() < dens]
+        if rng.random() < 0.5:       # bias towards acyclic graphs: keep forward edges of a random order
+            perm = list(range(n))
+            rng.shuffle(perm)
+            E = [(a, b) for a, b in E if perm.index(a) < perm.index(b)]
+        rng.shuffle(E)
+        dup = rng.random() < 0.06 and len(E) > 0
+        if dup:
+            E.insert(rng.randrange(len(E) + 1), rng.choice(E))
+        V = list(range(n))
+        rng.shuffle(V)
+        cases.append({"kind": "gen", "labels": rng.sample(LABELS, n), "V": V, "E": E, "dup": dup,
+                      "inputs_mode": rng.choice(["shuffled", "shuffled", "subset", "extra", "twice"]), "seed": rng.randrange(10 ** 6)})
+    return cases
+
+
+def run_gen_case(c):
+    """-> (terms, observations) : calls the real find_entries_and_exits / find_parents_and_children / topological_sort"""
+    import random
+    rpy()
+    from reservoirpy.node import Node
+    from reservoirpy.utils import graphflow as gf
+    _uid[0] += 1
+    tag = "g%d_" % _uid[0]
+    objs = [Node(forward=lambda node, x: x, name=tag + lb) for lb in c["labels"]]
+    ids = {id(o): i for i, o in enumerate(objs)}
+    nid = lambda o: ids[id(o)]
+    V = [objs[i] for i in c["V"]]
+    E = [(objs[a], objs[b]) for a, b in c["E"]]
+    sortedE = [(nid(a), nid(b)) for a, b in sorted(list(E), key=lambda x: x[0].name + x[1].name)]     # Python's own sort
+    terms, obs = [], {}
+
+    def outcome(thunk):
+        try:
+            return "(Val %s)" % _nl([nid(o) for o in thunk()])
+        except (RuntimeError, KeyError, ValueError, IndexError) as e:
+            return "(Exc %s)" % type(e).__name__
+    ents, exs = gf.find_entries_and_exits(V, E)
+    ents, exs = [nid(o) for o in ents], [nid(o) for o in exs]
+    obs["entries"], obs["exits"] = ents, exs
+    terms.append("chk_gen_ee %s %s %s %s" % (_nl(c["V"]), _el(c["E"]), _nl(ents), _nl(exs)))
+    P, C = gf.find_parents_and_children(E)
+    par = [[nid(o) for o in P.get(v, ())] for v in V]
+    chi = [[nid(o) for o in C.get(v, ())] for v in V]
+    terms.append("chk_gen_pc %s %s %s [%s] [%s]" % (_nl(c["V"]), _el(c["E"]), _el(sortedE), ";".join(map(_nl, par)), ";".join(map(_nl, chi))))
+    r0 = outcome(lambda: gf.topological_sort(V, E))
+    obs["toposort(None)"] = r0
+    terms.append("chk_gen_topo %s %s %s %s None %s" % (_nl(c["V"]), _el(c["E"]), _el(sortedE), _nl(ents), r0))
+    r = random.Random(c["seed"])
+    ins = list(ents)
+    r.shuffle(ins)
+    if c["inputs_mode"] == "subset" and len(ins) > 1:
+        ins = ins[:-1]
+    elif c["inputs_mode"] == "extra":
+        ins.insert(r.randrange(len(ins) + 1), r.choice(c["V"]))
+    elif c["inputs_mode"] == "twice" and ins:
+        ins.append(r.choice(ins))
+    r1 = outcome(lambda: gf.topological_sort(V, E, [objs[i] for i in ins]))
+    obs["inputs"], obs["toposort(inputs)"] = ins, r1
+    terms.append("chk_gen_topo %s %s %s [] (Some %s) %s" % (_nl(c["V"]), _el(c["E"]), _el(sortedE), _nl(ins), r1))
+    return terms, obs
+
+
+def gen_correspondence(ctx):
+    """the GENERATED graphflow functions executed by vm_compute against the real ones (sub-id C03_gen)"""
+    cases = gen_graph_cases(ctx.rng("corr-gen"), ctx.n(250, 2500))
+    terms, keep, dist = [], [], {}
+    for c in cases:
+        try:
+            ts, obs = run_gen_case(c)
+        except Exception as e:
+            ts, obs = ["false"], {"impl_error": repr(e)}
+        for t in ts:
+            terms.append(t)
+            keep.append({"scenario": jsonable(c), "observed": obs, "term": t if len(t) < 600 else t[:600] + "..."})
+        k = "gen:" + ("dup-edges" if c["dup"] else c["inputs_mode"]) + ":" + str(obs.get("toposort(inputs)", "?"))[1:4]
+        dist[k] = dist.get(k, 0) + 1
+    failing, err = core.run_cases(ctx.pid + "_gen", IMPORTS_GEN, terms, chunk=300)
+    return terms, keep, dist, failing, err
+
+
 def judge(case):
     c = case["scenario"]
     return _judge_law(c) if c.get("kind") == "law" else _judge(c)      # _judge dispatches kind == "share"
@@ -780,8 +948,21 @@ def correspondence(ctx):
         return {"evaluations": len(cases), "distinct_nontrivial": len(nt), "rule": "", "samples": keep[:3], "failing": [],
                 "error": "cannot build run/RunC03.v (%s):\n%s" % (failed, log[-1500:])}
     failing, err = core.run_cases(ctx.pid, IMPORTS, terms, chunk=400)
+    # tie (T), executed: the generated graphflow functions against the real ones (separate runner, sub-id C03_gen)
+    gterms, gkeep, gdist, gfail, gerr = gen_correspondence(ctx)
+    base = len(terms)
+    terms, keep = terms + gterms, keep + gkeep
+    dist.update(gdist)
+    dist["generated-code disagreements"] = len(gfail)
+    failing = sorted(set(failing) | {base + j for j in gfail})
+    if gerr:
+        err = (err or "") + "generated-code run (tie T): " + gerr
     return {"evaluations": len(terms), "distinct_nontrivial": len(nt),
-            "rule": "sharing scenarios: 1-2 let-bound models reused by 2-4 later expressions (left/right operand of >>, list "
+            "rule": "[tie T executed: random digraphs on 1-6 nodes (cyclic, self-loops, lonely nodes, name-key ties; a few off-contract: "
+                    "duplicated edges / inputs not the entry set) given DIRECTLY to the real find_entries_and_exits, find_parents_and_children, "
+                    "topological_sort(inputs=None | list) and to the code generated from graphflow.py: entry/exit sets, parents/children "
+                    "lists, and the returned ORDER or the exception compared exactly] "
+                    "sharing scenarios: 1-2 let-bound models reused by 2-4 later expressions (left/right operand of >>, list "
                     "member, operand of & and &=; `v &= e` updates v), every use AND every variable re-observed at the end "
                     "compared with the model's eval of the inlined expression; every labelled digraph without self-loops and with >=1 edge on 2-3 nodes (quick) / 1-4 nodes + a 5-node sample "
                     "(thorough), each built twice: Model(nodes, edges) and as merged 1-to-1 links (& / &=); hand-written corner "
@@ -856,6 +1037,7 @@ def oracle(ctx, scale=1):
     laws = law_cases(rng, ctx.n(150, 1500) * scale)
     out, dist = [], {}
     cases = [c for c in cases if not c.get("corr_only")] + share_cases(ctx.rng("oracle-share"), ctx.n(150, 1500) * scale)
+    cases += gen_graph_cases(ctx.rng("oracle-gen"), ctx.n(200, 2000) * scale)      # utils/graphflow.py called directly
     for c in cases:
         v = _judge(c)
         if v:
@@ -872,7 +1054,9 @@ def oracle(ctx, scale=1):
         if v:
             out.append(v)
     return {"evaluations": len(cases) + len(laws) + len(decl), "violations": out, "distribution": dist,
-            "rule": "networkx acyclicity of the denoted plain digraph vs RuntimeError; operand nodes once; predecessors received "
+            "rule": "utils/graphflow.py called directly on random digraphs: entries/exits, topological_sort(inputs=None | shuffled entries) "
+                    "returns a topological order iff networkx says acyclic, cycle RuntimeError otherwise; "
+                    "networkx acyclicity of the denoted plain digraph vs RuntimeError; operand nodes once; predecessors received "
                     "through inserted Concats == denoted predecessors, each once; entries/exits; topological order; "
                     "reused operand models unchanged (nodes, edges, entries, exits as sets) and every expression reusing them "
                     "denoting the plain graph of the inlined expression; isomorphism up to Concat names for (a>>b)>>c vs a>>(b>>c) (disjoint operands), a&b vs b&a, m&m vs m"}
